@@ -524,27 +524,37 @@ class HilbertAnalyzer(BaseAnalyzer):
         hilbert = signal.hilbert
 
         return ts.TimeSeries(data=hilbert(data),
-                             sampling_rate=sampling_rate)
+                             sampling_rate=sampling_rate,
+                             t0=self.input.t0,
+                             time_unit=self.input.time_unit)
 
     @desc.setattr_on_read
     def amplitude(self):
         return ts.TimeSeries(data=np.abs(self.analytic.data),
-                             sampling_rate=self.analytic.sampling_rate)
+                             sampling_rate=self.analytic.sampling_rate,
+                             t0=self.analytic.t0,
+                             time_unit=self.analytic.time_unit)
 
     @desc.setattr_on_read
     def phase(self):
         return ts.TimeSeries(data=np.angle(self.analytic.data),
-                             sampling_rate=self.analytic.sampling_rate)
+                             sampling_rate=self.analytic.sampling_rate,
+                             t0=self.analytic.t0,
+                             time_unit=self.analytic.time_unit)
 
     @desc.setattr_on_read
     def real(self):
         return ts.TimeSeries(data=self.analytic.data.real,
-                             sampling_rate=self.analytic.sampling_rate)
+                             sampling_rate=self.analytic.sampling_rate,
+                             t0=self.analytic.t0,
+                             time_unit=self.analytic.time_unit)
 
     @desc.setattr_on_read
     def imag(self):
         return ts.TimeSeries(data=self.analytic.data.imag,
-                             sampling_rate=self.analytic.sampling_rate)
+                             sampling_rate=self.analytic.sampling_rate,
+                             t0=self.analytic.t0,
+                             time_unit=self.analytic.time_unit)
 
 
 class MorletWaveletAnalyzer(BaseAnalyzer):
